@@ -150,7 +150,10 @@ def runOne (line : String) : String :=
       let o := optsOfString ((j.getObjValAs? String "opts").toOption.getD "")
       let L := linkGrammar fr.rules
       if L.dup.isSome then throw "duplicate rule"
-      let P := compileAll o L.G
+      let G' ← match (if o.switch then optimise L.G else .ok L.G) with
+        | .ok g => pure g
+        | .error e => throw s!"optimise: {e}"
+      let P := compileAll o G'
       let ctx : RunCtx := { o := o, L := L, P := P, acts := L.actions.map (·.1),
                             codeOf := fun n => ((L.actions.find? (·.1 == n)).map (·.2)).getD "" }
       let cases ← match (← j.getObjVal? "cases") with
